@@ -42,6 +42,7 @@ REAL_VS_STUB = {
         "multiprocessing.Process -> SimProcess (E2 only)", "multiprocessing.Queue -> SimQueue (E2 only)",
         "pop_propagator -> seeded scheduler (C08 permuted-order runs only; real in native-order runs)",
         "time (virtual clock, E2 only)",
+        "numpy.empty / numpy.empty_like -> same allocation, contents chosen by the simulator (interpreted families; 2/3 of the runs)",
     ],
     "not_injected_because_absent_in_nucs": [
         "disk errors", "network loss/duplication/partition", "clock skew", "allocation failure", "EINTR",
